@@ -25,6 +25,7 @@ package protocol
 //@   props C08
 //@   requires c.l <= 20
 //@   ensures [len] len(result) == int(c.l)
+//@   ensures [bytes] forall(k, 0, int(c.l), result[k] == c.b[k])
 //@   modifies nothing
 
 // ---------------- packet numbers (C05) ----------------
